@@ -747,8 +747,13 @@ pub fn run_hs(cfg: &HsCfg, sc: &mut Sc) -> HsTrace {
         }
         if cfg.query_each_step {
             query_check(sc, k + 1, k + 1, &s_known_i, &s_known_r);
+        }
+        if cfg.query_each_step || cfg.seed % 2 == 0 {
             // callable at any time; must not disturb the session (the rest of the run is compared with the model)
             let _ = sc.ex.raw_split(if k % 2 == 0 { 1 } else { 2 });
+            if cfg.seed % 4 == 0 {
+                let _ = sc.ex.raw_split(if k % 2 == 0 { 2 } else { 1 });
+            }
         }
     }
 
